@@ -564,18 +564,23 @@ Definition c09_verdict (c : c09_case) : N :=
 
 Definition c09_failing (cs : list c09_case) : list (N * N) := failing_from c09_verdict 0%N cs.
 
-(** case: two histories, the observations of their final states, the [==] verdict between them.
-    [mode = 0]: correspondence only (model = implementation); [mode = 1]: the property on the
-    implementation's output: cache = qubits of the listing for both, and equal listings imply [==]. *)
-Definition c10_case := (N * list op * list op * obs * obs * bool)%type.
+(** case: mode, the first known class the harness computed for the two histories (0 = none), two
+    histories, the observations of their final states, the [==] verdict between them.
+    [mode = 0]: correspondence only (model = implementation, and the harness's class computation
+    agrees with [all_hits]); [mode = 1]: the property on the implementation's output: cache =
+    qubits of the listing for both, and equal listings imply [==]. *)
+Definition c10_case := (N * N * list op * list op * obs * obs * bool)%type.
 
 Definition chk_cache (o : obs) : bool := seteqb (snd o) (listing_qubits (fst o)).
 
+Definition first_class (h1 h2 : list op) : N := hd 0%N (all_hits h1 ++ all_hits h2).
+
 Definition c10_verdict (c : c10_case) : N :=
-  let '(mode, h1, h2, o1, o2, e) := c in
+  let '(mode, cls, h1, h2, o1, o2, e) := c in
   if N.eqb mode 0 then
     let p := run h1 in let q := run h2 in
-    if obs_eqb (obs_of p) o1 && obs_eqb (obs_of q) o2 && Bool.eqb (prog_eqb p q) e then 0%N else 1%N
+    if obs_eqb (obs_of p) o1 && obs_eqb (obs_of q) o2 && Bool.eqb (prog_eqb p q) e
+       && N.eqb (first_class h1 h2) cls then 0%N else 1%N
   else
     if chk_cache o1 && chk_cache o2 && (negb (instrs_eqb (fst o1) (fst o2)) || e) then 0%N else 2%N.
 
